@@ -1264,7 +1264,8 @@ async fn run_op(fs: &FileSystem, svc: &S3Service, ups: &mut Uploads, op: &str) -
             b.set_key(un_hs(a[3]));
             b.set_range(parse_range(a[4]));
             b.set_checksum_mode(Some(ChecksumMode::from_static(ChecksumMode::ENABLED)));
-            let via_http = a[4] != "-" && plain_key(&un_hs(a[3]));
+            // (a bucket name with an upper-case letter cannot be addressed over HTTP: such buckets exist through the trait only)
+            let via_http = a[4] != "-" && plain_key(&un_hs(a[3])) && !un_hs(a[2]).bytes().any(|c| c.is_ascii_uppercase());
             let http_part = if via_http { format!(":{}", http_get(svc, &un_hs(a[2]), &un_hs(a[3]), a[4]).await) } else { String::new() };
             match fs.get_object(req(b.build().unwrap(), w)).await {
                 Ok(r) => {
